@@ -260,10 +260,10 @@ Proof.
 Qed.
 
 (* ---------------------------------------------------------------- one message *)
-Lemma process_inv pick w mind lcs s m out s' :
+Lemma process_inv pick w mind (lcs : tables) s m out s' :
   process pick w mind lcs s m = Ok (out, s') ->
   exists calc delay np',
-    calc_time lcs (s_cache s) m = Ok (calc, s_cache s') /\
+    calc_time (lcs (s_pos s) (s_np s)) (s_cache s) m = Ok (calc, s_cache s') /\
     sub_chk (m_rt m) calc = Ok delay /\
     update_delays w mind (s_delays s) (s_thr s) (m_ecu m) (m_lc m) (m_rt m) delay = Ok (s_delays s', s_thr s') /\
     release pick (length (s_heap s ++ [(calc, m)])) (s_thr s') (m_rt m) (s_np s) (s_heap s ++ [(calc, m)])
@@ -275,37 +275,39 @@ Proof.
   exists calc, a, np'. cbn. auto.
 Qed.
 
-Lemma StronglySorted_app {A} (R : A -> A -> Prop) l1 l2 :
-  StronglySorted R l1 -> StronglySorted R l2 -> Forall (fun x => Forall (R x) l2) l1 ->
-  StronglySorted R (l1 ++ l2).
+(* the calculated time never exceeds the reception time; the cache only grows by values of the current table *)
+Lemma calc_time_gen (tbl : table) c m calc c' :
+  calc_time tbl c m = Ok (calc, c') ->
+  calc <= m_rt m /\
+  (forall id s, cache_get c' id = Some s -> cache_get c id = Some s \/ s = lc_start tbl id).
 Proof.
-  induction l1 as [|x r IH]; intros H1 H2 H12; [exact H2|].
-  inversion H1; subst. inversion H12; subst. cbn. constructor.
-  - apply IH; assumption.
-  - apply Forall_app. split; assumption.
+  unfold calc_time. destruct (m_ctrl m).
+  - intros H. inv_ok H. split; [lia|]. intros id s Hs. left. exact Hs.
+  - unfold get_lc_start. destruct (cache_get c (m_lc m)) as [t|] eqn:Eg; intros H; inv_ok H; inv_ok Hb.
+    + split; [destruct (m_rt m <? a) eqn:El; [lia|apply N.ltb_ge in El; exact El]|]. intros id s Hs. left. exact Hs.
+    + split; [destruct (m_rt m <? a) eqn:El; [lia|apply N.ltb_ge in El; exact El]|].
+      intros id s. cbn [cache_get]. destruct (m_lc m =? id) eqn:Ei.
+      * apply N.eqb_eq in Ei. subst id. intros H1. inversion H1. right. reflexivity.
+      * intros Hs. left. exact Hs.
 Qed.
 
-Section Ordered.
-  Variables (pick : picker) (w mind : N) (lcs : N -> option N).
+(* ---------------------------------------------------------------- any (changing) table *)
+Section AnyTable.
+  Variables (pick : picker) (w mind : N) (lcs : tables).
 
-  (* what is known after processing [input] from state [s]; no hypothesis on the stream *)
-  Lemma run_state_perm : forall input s o s',
+  Lemma run_state_perm_gen : forall input s o s',
     run_state pick w mind lcs s input = Ok (o, s') ->
-    coherent lcs (s_cache s) ->
-    coherent lcs (s_cache s') /\ Permutation (s_heap s ++ map (ekey lcs) input) (o ++ s_heap s').
+    Permutation (map snd (s_heap s) ++ input) (map snd o ++ map snd (s_heap s')).
   Proof.
-    induction input as [|m r IH]; intros s o s' H Hc; cbn [run_state] in H.
-    - inv_ok H. split; [exact Hc|]. cbn. rewrite app_nil_r. apply Permutation_refl.
+    induction input as [|m r IH]; intros s o s' H; cbn [run_state] in H.
+    - inv_ok H. cbn. rewrite app_nil_r. apply Permutation_refl.
     - inv_ok H. destruct a as [o1 s1]. inv_ok Hb. destruct a as [o2 s2]. inv_ok Hbb.
-      apply process_inv in Ha. destruct Ha as [calc [delay [np' [Hcalc [_ [_ [Hrel _]]]]]]].
-      apply calc_time_spec in Hcalc; [|exact Hc]. destruct Hcalc as [Hcalc [Hc1 _]].
+      apply process_inv in Ha. destruct Ha as [calc [delay [np' [_ [_ [_ [Hrel _]]]]]]].
       apply release_spec in Hrel. destruct Hrel as [Hp _].
-      apply IH in Hba; [|exact Hc1]. destruct Hba as [Hc2 Hp2]. split; [exact Hc2|].
-      cbn [map]. subst calc. fold (ekey lcs m) in Hp.
-      replace (s_heap s ++ ekey lcs m :: map (ekey lcs) r) with ((s_heap s ++ [ekey lcs m]) ++ map (ekey lcs) r)
-        by (rewrite <- app_assoc; reflexivity).
+      apply IH in Hba. apply (Permutation_map snd) in Hp. rewrite !map_app in Hp. cbn [map snd] in Hp.
+      replace (map snd (s_heap s) ++ m :: r) with ((map snd (s_heap s) ++ [m]) ++ r) by (rewrite <- app_assoc; reflexivity).
       eapply Permutation_trans; [apply Permutation_app_tail; exact Hp|].
-      rewrite <- !app_assoc. apply Permutation_app_head. exact Hp2.
+      rewrite map_app, <- !app_assoc. apply Permutation_app_head. exact Hba.
   Qed.
 
   Lemma run_state_thr : forall input s o s',
@@ -328,9 +330,43 @@ Section Ordered.
     apply release_spec in Hrel. destruct Hrel as [_ [_ [_ [Hthr _]]]].
     eapply Forall_impl; [|exact Hthr]. cbn beta. intros x Hx. lia.
   Qed.
+End AnyTable.
+
+Lemma StronglySorted_app {A} (R : A -> A -> Prop) l1 l2 :
+  StronglySorted R l1 -> StronglySorted R l2 -> Forall (fun x => Forall (R x) l2) l1 ->
+  StronglySorted R (l1 ++ l2).
+Proof.
+  induction l1 as [|x r IH]; intros H1 H2 H12; [exact H2|].
+  inversion H1; subst. inversion H12; subst. cbn. constructor.
+  - apply IH; assumption.
+  - apply Forall_app. split; assumption.
+Qed.
+
+Section Ordered.
+  Variables (pick : picker) (w mind : N) (lcs : table).
+
+  (* what is known after processing [input] from state [s]; no hypothesis on the stream *)
+  Lemma run_state_perm : forall input s o s',
+    run_state pick w mind (fixed lcs) s input = Ok (o, s') ->
+    coherent lcs (s_cache s) ->
+    coherent lcs (s_cache s') /\ Permutation (s_heap s ++ map (ekey lcs) input) (o ++ s_heap s').
+  Proof.
+    induction input as [|m r IH]; intros s o s' H Hc; cbn [run_state] in H.
+    - inv_ok H. split; [exact Hc|]. cbn. rewrite app_nil_r. apply Permutation_refl.
+    - inv_ok H. destruct a as [o1 s1]. inv_ok Hb. destruct a as [o2 s2]. inv_ok Hbb.
+      apply process_inv in Ha. destruct Ha as [calc [delay [np' [Hcalc [_ [_ [Hrel _]]]]]]].
+      apply calc_time_spec in Hcalc; [|exact Hc]. destruct Hcalc as [Hcalc [Hc1 _]].
+      apply release_spec in Hrel. destruct Hrel as [Hp _].
+      apply IH in Hba; [|exact Hc1]. destruct Hba as [Hc2 Hp2]. split; [exact Hc2|].
+      cbn [map]. subst calc. fold (ekey lcs m) in Hp.
+      replace (s_heap s ++ ekey lcs m :: map (ekey lcs) r) with ((s_heap s ++ [ekey lcs m]) ++ map (ekey lcs) r)
+        by (rewrite <- app_assoc; reflexivity).
+      eapply Permutation_trans; [apply Permutation_app_tail; exact Hp|].
+      rewrite <- !app_assoc. apply Permutation_app_head. exact Hp2.
+  Qed.
 
   Lemma run_state_sorted : forall input s o s',
-    run_state pick w mind lcs s input = Ok (o, s') ->
+    run_state pick w mind (fixed lcs) s input = Ok (o, s') ->
     coherent lcs (s_cache s) -> mind <= s_thr s ->
     StronglySorted (fun a b => m_rt a <= m_rt b) input ->
     Forall (fun m => m_rt m <= calc_spec lcs m + mind) input ->
@@ -342,7 +378,7 @@ Section Ordered.
     induction input as [|m r IH]; intros s o s' H Hc Hm Hrt Hb; cbn [run_state] in H.
     - inv_ok H. split; [constructor|]. split; [constructor|]. intros p Hp _. split; [constructor|exact Hp].
     - inv_ok H. destruct a as [o1 s1]. inv_ok Hb0. destruct a as [o2 s2]. inv_ok Hb0b.
-      pose proof (process_released_old _ _ _ _ Ha Hm) as Hold.
+      pose proof (process_released_old _ _ _ _ _ _ _ _ Ha Hm) as Hold.
       apply process_inv in Ha. destruct Ha as [calc [delay [np' [Hcalc [_ [Hupd [Hrel _]]]]]]].
       apply calc_time_spec in Hcalc; [|exact Hc]. destruct Hcalc as [Hcalc [Hc1 _]].
       apply update_delays_thr in Hupd; [|exact Hm].
@@ -373,7 +409,7 @@ Section Ordered.
 End Ordered.
 
 (* ---------------------------------------------------------------- whole runs *)
-Lemma run_entries_inv pick w mind lcs input o :
+Lemma run_entries_inv pick w mind (lcs : tables) input o :
   run_entries pick w mind lcs input = Ok o ->
   exists o1 s o2,
     run_state pick w mind lcs (init mind) input = Ok (o1, s) /\
@@ -383,8 +419,8 @@ Proof.
   exists o1, s, a. auto.
 Qed.
 
-Lemma run_entries_perm pick w mind lcs input o :
-  run_entries pick w mind lcs input = Ok o -> Permutation o (map (ekey lcs) input).
+Lemma run_entries_perm pick w mind (lcs : table) input o :
+  run_entries pick w mind (fixed lcs) input = Ok o -> Permutation o (map (ekey lcs) input).
 Proof.
   intros H. apply run_entries_inv in H. destruct H as [o1 [s [o2 [H1 [H2 Ho]]]]]. subst o.
   apply run_state_perm in H1; [|apply coherent_nil]. destruct H1 as [_ Hp]. cbn [init s_heap app] in Hp.
@@ -395,16 +431,20 @@ Qed.
 Lemma map_snd_ekey lcs l : map snd (map (ekey lcs) l) = l.
 Proof. induction l as [|x r IH]; [reflexivity|]. cbn. rewrite IH. reflexivity. Qed.
 
-Theorem run_perm pick w mind lcs input out :
+Theorem run_perm pick w mind (lcs : tables) input out :
   run pick w mind lcs input = Ok out -> Permutation out input.
 Proof.
   unfold run. intros H. inv_ok H. inv_ok Hb.
-  apply run_entries_perm in Ha. rewrite <- (map_snd_ekey lcs input). apply Permutation_map. exact Ha.
+  apply run_entries_inv in Ha. destruct Ha as [o1 [s [o2 [H1 [H2 Ho]]]]]. subst a.
+  apply run_state_perm_gen in H1. cbn [init s_heap map app] in H1.
+  apply flush_spec in H2. destruct H2 as [Hp2 _].
+  rewrite map_app. symmetry. eapply Permutation_trans; [exact H1|]. apply Permutation_app_head.
+  apply Permutation_map. exact Hp2.
 Qed.
 
 (* the entries handed out carry the calculated time of the specification *)
-Lemma run_entries_keys pick w mind lcs input o :
-  run_entries pick w mind lcs input = Ok o -> o = map (ekey lcs) (map snd o).
+Lemma run_entries_keys pick w mind (lcs : table) input o :
+  run_entries pick w mind (fixed lcs) input = Ok o -> o = map (ekey lcs) (map snd o).
 Proof.
   intros H. apply run_entries_perm in H.
   assert (Hin : Forall (fun e => e = ekey lcs (snd e)) o).
@@ -413,8 +453,8 @@ Proof.
   clear H. induction Hin as [|e r He _ IH]; [reflexivity|]. cbn [map]. rewrite <- He, <- IH. reflexivity.
 Qed.
 
-Theorem run_entries_sorted pick w mind lcs input o :
-  run_entries pick w mind lcs input = Ok o ->
+Theorem run_entries_sorted pick w mind (lcs : table) input o :
+  run_entries pick w mind (fixed lcs) input = Ok o ->
   StronglySorted (fun a b => m_rt a <= m_rt b) input ->
   Forall (fun m => m_rt m <= calc_spec lcs m + mind) input ->
   StronglySorted kle o.
@@ -462,11 +502,11 @@ Proof.
   eapply Forall_impl; [|exact Hx]. intros y. apply HRS.
 Qed.
 
-Theorem run_sorted pick w mind lcs input out :
+Theorem run_sorted pick w mind (lcs : table) input out :
   StronglySorted (fun a b => m_rt a <= m_rt b) input ->
   StronglySorted (fun a b => m_index a < m_index b) input ->
   Forall (fun m => m_rt m - calc_spec lcs m <= mind) input ->
-  run pick w mind lcs input = Ok out ->
+  run pick w mind (fixed lcs) input = Ok out ->
   StronglySorted (before lcs) out.
 Proof.
   intros Hrt Hidx Hb H. pose proof (run_perm _ _ _ _ _ _ H) as Hperm.
@@ -644,29 +684,32 @@ Section NoPanic.
       destruct (IH (S np) h1) as [[[o h2] n2] Hr]; [unfold heap, entry in *; lia|assumption|]. rewrite Hr. cbn [bind]. eexists; reflexivity.
   Qed.
 
-  Variable lcs : N -> option N.
+  Variable lcs : tables.
+  (* reception time bounded; for a non-control message every table version gives a start that fits with the timestamp *)
   Definition msg_ok (m : msg) : Prop :=
-    m_rt m <= B /\ (m_ctrl m = false -> lc_start lcs (m_lc m) + m_ts m * 100 <= u64max).
+    m_rt m <= B /\ (m_ctrl m = false -> forall i np, lc_start (lcs i np) (m_lc m) + m_ts m * 100 <= u64max).
+  Definition cached_from (c : cache) : Prop :=
+    forall id s, cache_get c id = Some s -> exists i np, s = lc_start (lcs i np) id.
   Definition inv (s : st) : Prop :=
-    coherent lcs (s_cache s) /\ delays_ok (s_delays s) /\ s_thr s <= mind + M /\ Forall (fun e => fst e <= B) (s_heap s).
+    cached_from (s_cache s) /\ delays_ok (s_delays s) /\ s_thr s <= mind + M /\ Forall (fun e => fst e <= B) (s_heap s).
 
-  Lemma calc_time_ok c m : coherent lcs c -> msg_ok m -> exists calc c', calc_time lcs c m = Ok (calc, c').
+  Lemma calc_time_ok i np c m : cached_from c -> msg_ok m -> exists calc c', calc_time (lcs i np) c m = Ok (calc, c').
   Proof.
     intros Hc [_ Hts]. unfold calc_time. destruct (m_ctrl m); [eexists _, _; reflexivity|].
     unfold get_lc_start. destruct (cache_get c (m_lc m)) as [t|] eqn:Eg.
-    - apply Hc in Eg. subst t. unfold add_chk.
-      replace (lc_start lcs (m_lc m) + m_ts m * 100 <=? u64max) with true by (symmetry; apply N.leb_le; auto).
+    - apply Hc in Eg. destruct Eg as [i0 [np0 Eg]]. subst t. unfold add_chk.
+      replace (lc_start (lcs i0 np0) (m_lc m) + m_ts m * 100 <=? u64max) with true by (symmetry; apply N.leb_le; auto).
       cbn [bind]. eexists _, _; reflexivity.
-    - fold (lc_start lcs (m_lc m)). unfold add_chk.
-      replace (lc_start lcs (m_lc m) + m_ts m * 100 <=? u64max) with true by (symmetry; apply N.leb_le; auto).
+    - fold (lc_start (lcs i np) (m_lc m)). unfold add_chk.
+      replace (lc_start (lcs i np) (m_lc m) + m_ts m * 100 <=? u64max) with true by (symmetry; apply N.leb_le; auto).
       cbn [bind]. eexists _, _; reflexivity.
   Qed.
 
   Lemma process_ok pick s m : inv s -> msg_ok m -> exists out s', process pick w mind lcs s m = Ok (out, s') /\ inv s'.
   Proof.
     intros [Hc [Hd [Ht Hh]]] Hm. unfold process.
-    destruct (calc_time_ok _ m Hc Hm) as [calc [c' Hcalc]]. rewrite Hcalc. cbn [bind].
-    destruct (calc_time_spec _ _ _ _ _ Hcalc Hc) as [_ [Hc' Hle]]. destruct Hm as [Hrt _].
+    destruct (calc_time_ok (s_pos s) (s_np s) _ m Hc Hm) as [calc [c' Hcalc]]. rewrite Hcalc. cbn [bind].
+    destruct (calc_time_gen _ _ _ _ _ Hcalc) as [Hle Hc']. destruct Hm as [Hrt _].
     unfold sub_chk. replace (calc <=? m_rt m) with true by (symmetry; apply N.leb_le; exact Hle). cbn [bind].
     destruct (update_delays_ok (s_delays s) (s_thr s) (m_ecu m) (m_lc m) (m_rt m) (m_rt m - calc) Hd Ht Hrt) as [d' [thr' [Hu [Hd' Ht']]]]; [lia|].
     rewrite Hu. cbn [bind].
@@ -676,9 +719,11 @@ Section NoPanic.
     - apply Nat.le_refl.
     - eapply Forall_impl; [|exact Hh2]. cbn beta. intros e He. unfold M in *. lia.
     - rewrite Hr. cbn [bind]. eexists _, _. split; [reflexivity|]. unfold inv. cbn [s_cache s_delays s_thr s_heap].
-      split; [exact Hc'|]. split; [exact Hd'|]. split; [exact Ht'|].
-      apply release_spec in Hr. destruct Hr as [Hp _].
-      eapply Permutation_Forall in Hh2; [|exact Hp]. apply Forall_app in Hh2. apply Hh2.
+      split; [|split; [exact Hd'|split; [exact Ht'|]]].
+      + intros id s0 Hs0. destruct (Hc' id s0 Hs0) as [Hold|Hnew]; [apply Hc; exact Hold|].
+        exists (s_pos s), (s_np s). exact Hnew.
+      + apply release_spec in Hr. destruct Hr as [Hp _].
+        eapply Permutation_Forall in Hh2; [|exact Hp]. apply Forall_app in Hh2. apply Hh2.
   Qed.
 
   Lemma run_state_ok pick : forall input s, inv s -> Forall msg_ok input ->
@@ -692,7 +737,7 @@ Section NoPanic.
 
   Lemma inv_init : inv (init mind).
   Proof.
-    unfold inv, init. cbn. split; [apply coherent_nil|]. split; [constructor|]. split; [lia|constructor].
+    unfold inv, init. cbn. split; [intros id s H; discriminate|]. split; [constructor|]. split; [lia|constructor].
   Qed.
 
   Theorem run_ok pick input : Forall msg_ok input -> exists out, run pick w mind lcs input = Ok out.
@@ -705,15 +750,18 @@ Section NoPanic.
 End NoPanic.
 
 (* ---------------------------------------------------------------- window size 0: the first message panics *)
-Lemma run_window_zero_panics pick mind lcs m r :
-  (m_ctrl m = false -> lc_start lcs (m_lc m) + m_ts m * 100 <= u64max) ->
+Lemma run_window_zero_panics pick mind (lcs : tables) m r :
+  (m_ctrl m = false -> lc_start (lcs 0%nat 0%nat) (m_lc m) + m_ts m * 100 <= u64max) ->
   run pick 0 mind lcs (m :: r) = Panic site_unwrap.
 Proof.
-  intros Hts. unfold run, run_entries. cbn [run_state]. unfold process. cbn [init s_cache s_delays s_thr s_heap s_np].
-  destruct (calc_time_ok (m_rt m) lcs [] m (coherent_nil lcs)) as [calc [c' Hc]].
-  { split; [lia|exact Hts]. }
-  rewrite Hc. cbn [bind].
-  destruct (calc_time_spec _ _ _ _ _ Hc (coherent_nil lcs)) as [_ [_ Hle]].
+  intros Hts. unfold run, run_entries. cbn [run_state]. unfold process. cbn [init s_cache s_delays s_thr s_heap s_np s_pos].
+  assert (Hc : exists calc c', calc_time (lcs 0%nat 0%nat) [] m = Ok (calc, c')).
+  { unfold calc_time. destruct (m_ctrl m); [eexists _, _; reflexivity|].
+    unfold get_lc_start. cbn [cache_get]. fold (lc_start (lcs 0%nat 0%nat) (m_lc m)). unfold add_chk.
+    replace (lc_start (lcs 0%nat 0%nat) (m_lc m) + m_ts m * 100 <=? u64max) with true by (symmetry; apply N.leb_le; auto).
+    cbn [bind]. eexists _, _; reflexivity. }
+  destruct Hc as [calc [c' Hc]]. rewrite Hc. cbn [bind].
+  destruct (calc_time_gen _ _ _ _ _ Hc) as [Hle _].
   unfold sub_chk. replace (calc <=? m_rt m) with true by (symmetry; apply N.leb_le; exact Hle). cbn [bind].
   unfold update_delays. cbn [d_get]. unfold update_entry. cbn [e_lc]. rewrite N.eqb_refl. cbn. reflexivity.
 Qed.
@@ -728,11 +776,11 @@ Proof.
     rewrite Forall_forall in H3. apply H3. apply in_or_app. right. left. reflexivity.
 Qed.
 
-Lemma run_ties_original_order pick w mind lcs input out l1 a l2 b l3 :
+Lemma run_ties_original_order pick w mind (lcs : table) input out l1 a l2 b l3 :
   StronglySorted (fun a b => m_rt a <= m_rt b) input ->
   StronglySorted (fun a b => m_index a < m_index b) input ->
   Forall (fun m => m_rt m - calc_spec lcs m <= mind) input ->
-  run pick w mind lcs input = Ok out ->
+  run pick w mind (fixed lcs) input = Ok out ->
   out = l1 ++ a :: l2 ++ b :: l3 -> calc_spec lcs a = calc_spec lcs b ->
   exists i1 i2 i3, input = i1 ++ a :: i2 ++ b :: i3.
 Proof.
@@ -812,16 +860,16 @@ Proof.
   rewrite (IH (S np) h1); [reflexivity|]. eapply pop_min_nodup; eassumption.
 Qed.
 
-Lemma process_unique p1 p2 w mind lcs s m :
+Lemma process_unique p1 p2 w mind (lcs : tables) s m :
   NoDup (map eidx (s_heap s) ++ [m_index m]) -> process p1 w mind lcs s m = process p2 w mind lcs s m.
 Proof.
-  intros Hn. unfold process. destruct (calc_time lcs (s_cache s) m) as [[calc c']| |]; [|reflexivity|reflexivity]. cbn [bind].
+  intros Hn. unfold process. destruct (calc_time (lcs (s_pos s) (s_np s)) (s_cache s) m) as [[calc c']| |]; [|reflexivity|reflexivity]. cbn [bind].
   destruct (sub_chk (m_rt m) calc) as [delay| |]; [|reflexivity|reflexivity]. cbn [bind].
   destruct (update_delays w mind (s_delays s) (s_thr s) (m_ecu m) (m_lc m) (m_rt m) delay) as [[d' thr']| |]; [|reflexivity|reflexivity].
   cbn [bind]. rewrite (release_unique p1 p2); [reflexivity|]. rewrite map_app. exact Hn.
 Qed.
 
-Lemma run_state_unique p1 p2 w mind lcs : forall input s,
+Lemma run_state_unique p1 p2 w mind (lcs : tables) : forall input s,
   NoDup (map eidx (s_heap s) ++ map m_index input) ->
   run_state p1 w mind lcs s input = run_state p2 w mind lcs s input.
 Proof.
@@ -843,13 +891,13 @@ Proof.
   rewrite <- app_assoc in Hn. eapply NoDup_app_remove_l. exact Hn.
 Qed.
 
-Theorem run_unique p1 p2 w mind lcs input :
+Theorem run_unique p1 p2 w mind (lcs : tables) input :
   NoDup (map m_index input) -> run p1 w mind lcs input = run p2 w mind lcs input.
 Proof.
   intros Hn. unfold run, run_entries. rewrite (run_state_unique p1 p2 w mind lcs input (init mind)); [|exact Hn].
   destruct (run_state p2 w mind lcs (init mind) input) as [[o s]| |] eqn:Er; [|reflexivity|reflexivity]. cbn [bind].
   rewrite (flush_unique p1 p2); [reflexivity|].
-  apply run_state_perm in Er; [|apply coherent_nil]. destruct Er as [_ Hp]. cbn [init s_heap app] in Hp.
-  apply (Permutation_map eidx) in Hp. rewrite map_app, map_map in Hp. unfold eidx at 1 in Hp. cbn [ekey snd] in Hp.
-  eapply Permutation_NoDup in Hn; [|exact Hp]. eapply NoDup_app_remove_l. exact Hn.
+  apply run_state_perm_gen in Er. cbn [init s_heap map app] in Er.
+  apply (Permutation_map m_index) in Er. rewrite map_app, !map_map in Er.
+  eapply Permutation_NoDup in Hn; [|exact Er]. eapply NoDup_app_remove_l. exact Hn.
 Qed.
